@@ -3,16 +3,16 @@
   `Agent.send_bundle` (bp/agent.py) it runs in, including the re-entry of every fragment
   through `send_bundle`. Written to mirror the code that exists, quirks included:
 
-  * the payload `btsd` field is deleted (`delfieldval`) before any check, so when `_create`
-    raises, the chain runner swallows the exception and the ORIGINAL container is transmitted
-    with a deleted payload field (CBOR null) — defect D12;
-  * a block that carries a scapy payload layer (every block decoded from the wire gets a `Raw`
-    layer in `CanonicalBlock.post_dissect`; admin records carry an `AdminRecord` layer) has
-    its deleted `btsd` refilled from that layer by `ensure_block_type_specific_data`, so for
-    such bundles the "empty" fragment contains the whole payload and fragmentation always
-    raises (the original is then sent whole);
-  * after a successful fragmentation `_create` clears route and sender, so the original
-    `send_bundle` call ends with `RuntimeError` (no sender) — `escaped = true`.
+  * (after the fixes 9a18e3b / d1f6768) `_create` leaves the container untouched; every fragment
+    template gets its payload block emptied (`remove_payload(); btsd = b''`) before it is measured,
+    so a scapy payload layer on the original's payload block (every block decoded from the wire has a
+    `Raw` layer, admin records an `AdminRecord` layer) no longer matters;
+  * when fragmentation is impossible (`pre-check` or `frag_size <= 0`) route and sender are cleared
+    before raising: the chain runner swallows the exception, `send_bundle` finds no sender and raises
+    — nothing is transmitted (`escaped = true`). A KeyError/TypeError (no block number 1, no payload
+    data) is raised without that: the untouched original is transmitted;
+  * after a successful fragmentation `_create` clears route and sender and returns True; the chain
+    was interrupted, so `send_bundle` returns silently (`escaped = false`).
 
   Not representable with Model/Bundle.lean and therefore outside this model: `source`/`report_to`
   = None (Eid is not optional), block numbers = None (numbering is unchanged by `fix_block_num`
@@ -119,9 +119,14 @@ def selectBlocks (off : Nat) (bs : List Blk) : List Blk :=
 def fragPrimary (p : Primary) (off total : Nat) : Primary :=
   { p with flags := setFragFlag p.flags, fragOff := off, totalLen := total }
 
-/-- the fragment container before its payload is set: copies, `reload()`, `fill_fields()` -/
+/-- `fpyld_blk.remove_payload(); fpyld_blk.setfieldval('btsd', b'')` on block number 1 -/
+def clearPayload (bs : List Blk) : List Blk :=
+  bs.map (fun x => if x.c.blockNum == 1 then { c := { x.c with btsd := some [] }, layer := none } else x)
+
+/-- the fragment container before its payload is set: copies, `reload()`, payload block emptied,
+    `fill_fields()` -/
 def emptyFrag (p : Primary) (bs : List Blk) (off total : Nat) : FBundle :=
-  fillFields ⟨fragPrimary p off total, selectBlocks off bs⟩
+  fillFields ⟨fragPrimary p off total, clearPayload (selectBlocks off bs)⟩
 
 /-- The `while frag_offset < len(payload_data)` loop. Result: fragments already handed to
     `idle_add`, and whether the loop ended by raising. `fuel` = payload length suffices because
@@ -142,12 +147,13 @@ def createLoop (mtu pe : Nat) (pdata : Bytes) (p : Primary) (bs : List Blk) :
     else ([], false)
 
 inductive CreateRes where
-  /-- returned None: no fragmentation, container untouched -/
+  /-- returned None: no fragmentation -/
   | skip
   /-- returned True: fragments scheduled, route and sender cleared -/
   | frags (fs : List FBundle)
-  /-- raised: fragments scheduled so far, and the container as the exception left it -/
-  | raised (fs : List FBundle) (ctr : FBundle)
+  /-- raised: fragments scheduled so far; `cleared` = route and sender were cleared before raising.
+      The container itself is never modified. -/
+  | raised (fs : List FBundle) (cleared : Bool)
   deriving Repr, DecidableEq
 
 /-- `Fragment._create` on a container that has a route with the given `mtu` (None allowed). -/
@@ -157,17 +163,16 @@ def create (mtu : Option Nat) (b : FBundle) : CreateRes :=
   | some m =>
     if !(decide (m < b.size)) || noFragment b.primary.flags || isFragment b.primary.flags then .skip
     else match payloadBlk b.blocks with
-      | none => .raised [] b                               -- KeyError from block_num(1)
+      | none => .raised [] false                           -- KeyError from block_num(1)
       | some pb =>
-        let b' : FBundle := { b with blocks := setBtsd none b.blocks }   -- delfieldval('btsd')
         match pb.c.btsd with
-        | none => .raised [] b'                            -- len(None): TypeError
+        | none => .raised [] false                         -- len(None): TypeError
         | some pdata =>
           let pe := headLen pdata.length
-          if m < b.size - pdata.length + 3 * pe then .raised [] b'
+          if m < b.size - pdata.length + 3 * pe then .raised [] true
           else
-            let r := createLoop m pe pdata b'.primary b'.blocks pdata.length 0
-            if r.2 then .raised r.1 b' else .frags r.1
+            let r := createLoop m pe pdata b.primary b.blocks pdata.length 0
+            if r.2 then .raised r.1 true else .frags r.1
 
 structure Cfg where
   /-- encoded CRC value for (type, block encoded with zero CRC) -/
@@ -206,8 +211,9 @@ def sendBundle (cfg : Cfg) (now : Timestamp) (mtu : Option Nat) (b : FBundle) : 
     let b2 := cfg.secStep b1
     match create mtu b2 with
     | .skip => ⟨false, some (finalize cfg b2), []⟩
-    | .frags fs => ⟨true, none, fs⟩
-    | .raised fs c => ⟨false, some (finalize cfg c), fs⟩
+    | .frags fs => ⟨false, none, fs⟩                       -- chain interrupted: returns silently
+    | .raised fs true => ⟨true, none, fs⟩                  -- no sender: RuntimeError, nothing sent
+    | .raised fs false => ⟨false, some (finalize cfg b2), fs⟩
 
 /-- the idle callback `send_bundle(fctr)`: routed by the table (the MTU found is immaterial for
     a bundle that already is a fragment, it is passed for completeness) -/
